@@ -217,6 +217,23 @@ def _events(fn, state_attr="_state", process_attr="_process"):
                     out.append("handler:" + ast.unparse(a) + "{")
                     out.append("}")
                 continue
+            if isinstance(st, ast.While) and isinstance(st.test, ast.Constant) and st.test.value is True and not st.orelse:
+                # `while True: …; if c: break; rest` = `while not c: rest` (the part before the break test has no events)
+                j = next((i for i, b in enumerate(st.body) if isinstance(b, ast.If) and not b.orelse and len(b.body) == 1
+                          and isinstance(b.body[0], ast.Break)), None)
+                if j is not None and event_free(st.body[:j]):
+                    mark = len(out)
+                    out.append("while{")
+                    expr_calls(st.body[j].test)
+                    n_test = len(out)
+                    walk(st.body[j + 1:])
+                    if len(out) == n_test:
+                        test_events = out[mark + 1:n_test]
+                        del out[mark:]
+                        out.extend(test_events)
+                    else:
+                        out.append("}")
+                    continue
             if isinstance(st, ast.Try):
                 out.append("try{")
                 walk(st.body)
